@@ -1,5 +1,6 @@
 use crate::accumulator::accumulated_map::{AccumulatedMap, InputAccumulatedValues};
 use crate::accumulator::{self};
+use crate::function::eviction::EvictionPolicy;
 use crate::function::{Configuration, IngredientImpl};
 use crate::hash::FxHashSet;
 use crate::zalsa::ZalsaDatabase;
@@ -99,6 +100,9 @@ where
         let (zalsa, zalsa_local) = db.zalsas();
         // NEXT STEP: stash and refactor `fetch` to return an `&Memo` so we can make this work
         let memo = self.refresh_memo(db, zalsa, zalsa_local, key);
+        // `refresh_memo` may have (re)computed and cached the value: make sure the eviction policy
+        // knows about it, as `fetch` does.
+        self.eviction.record_use(key);
         (
             memo.header.revisions.accumulated(),
             memo.header.revisions.accumulated_inputs.load(),
